@@ -37,6 +37,9 @@ CHECKS = {
             "Every output of every save in the workload is parsed by a reader that shares no code with the library and trusts only the header tables; declared sizes are compared with "
             "what the writer emitted between Block hook events and with what the reader consumes on reload; string-index fields are located through the StringRef hook. "
             "The workload writes files after plain round trips, second generation, API construction and random edit sequences in all versions.", "3/C07"),
+    "C09": ("exploration", "runtime monitor: executable reference model of vertex deletion (survivor restriction, triangle filtering/re-indexing, skin-weight and locked-normal remapping) + range/counter/partition/segment invariants, bounded-exhaustive on small meshes and random beyond",
+            "DeleteVertsForShape is applied to every geometry kind (triangle lists, strips, BSTriShape family, skinned/unskinned, segmented) with structured and random index sets and "
+            "repeated deletions; accessors and raw skin/partition/segment state are compared with the model after every deletion and geometry is compared across save+reload.", "3/C09"),
     "C10": ("exploration", "runtime monitor: structural invariant checker over NiSkinPartition/BSDismemberSkinInstance state after every partition operation and after save+reload",
             "Skinned shapes with 1..120 bones and 1..8 influences are built in OB/FO3/SK/SSE, partitions are rebuilt and triangles re-assigned with in-range, unassigned and "
             "out-of-range labels, emptied, deleted and reset; after each step the coverage / vertex-map / mapped-triangle / bone-limit / weight / alignment invariants are evaluated "
